@@ -85,8 +85,9 @@ TrBody ==
     /\ Cmd("body")
     /\ Body(ExpectedMsg,
             [parse |-> Ev.parse, fits |-> Ev.size <= cfg.maxBytes,
-             hook |-> IF Has("hook") /\ Ev.hook.action = "replace"
-                      THEN [action |-> "replace", mailboxes |-> Ev.hook.mailboxes,
+             hook |-> IF Has("hook") /\ Ev.hook.action \in {"replace", "replace-keep"}
+                      THEN [action |-> Ev.hook.action,
+                            mailboxes |-> IF Ev.hook.action = "replace" THEN Ev.hook.mailboxes ELSE <<>>,
                             msg |-> [from |-> Ev.hook.from, to |-> Ev.hook.to, subject |-> Ev.hook.subject,
                                      bodyhash |-> Ev.bodyhash]]
                       ELSE [action |-> "none"]])
@@ -116,11 +117,12 @@ TrCut == /\ Is("cut") /\ Ev.returned
             \/ /\ Ev.c = "body" /\ Ev.complete /\ st = "DATA"
                /\ Body(ExpectedMsg, BodyDec)
          /\ SnapOK(boxes') /\ cfg' = cfg /\ Mark
-(* after a cut nothing more is sent; the driver's closing event *)
-TrEndAfterCut == /\ Is("end") /\ st = "QUIT" /\ Ev.returned
-                 /\ UNCHANGED smtpvars /\ SnapOK(boxes) /\ cfg' = cfg /\ Mark
 
-TraceNext == \/ TrCut \/ TrReset \/ TrConnect \/ TrHello \/ TrMail \/ TrRcpt \/ TrData \/ TrBody \/ TrRset
+(* the driver did not send a body because the server had not answered 354 *)
+TrSkipped == /\ Is("skipped") /\ st # "DATA"
+             /\ UNCHANGED smtpvars /\ SnapOK(boxes) /\ cfg' = cfg /\ Mark
+
+TraceNext == \/ TrSkipped \/ TrCut \/ TrReset \/ TrConnect \/ TrHello \/ TrMail \/ TrRcpt \/ TrData \/ TrBody \/ TrRset
              \/ TrHarmless \/ TrRefused \/ TrAuthPlain \/ TrAuthLogin \/ TrCred \/ TrQuit \/ TrEnd
 
 TraceSpec == TraceInit /\ [][TraceNext]_tvars
